@@ -17,6 +17,7 @@
 package main
 
 import (
+	"bytes"
 	"context"
 	"encoding/hex"
 	"fmt"
@@ -32,6 +33,7 @@ import (
 
 	scalibr "github.com/google/osv-scalibr"
 	"github.com/google/osv-scalibr/binary/cdx"
+	"github.com/google/osv-scalibr/binary/cli"
 	"github.com/google/osv-scalibr/binary/spdx"
 	"github.com/google/osv-scalibr/converter"
 	"github.com/google/osv-scalibr/extractor"
@@ -102,6 +104,9 @@ type tcase struct {
 	stream, format string
 	// formats the SAME ScanResult value was exported to before this one, in order (binary/cli converts one result once per -o flag)
 	prefix []string
+	// state of the OUTPUT PATH before the judged export: "" / fresh, shorter, longer-bytes, longer-export, ro; viaCLI: written by cli.Flags.WriteScanResults
+	pstate string
+	viaCLI bool
 	pkgs           []pk
 }
 
@@ -261,6 +266,16 @@ func must(err error) {
 func (c tcase) line() string {
 	var sb strings.Builder
 	ftok := c.format
+	if c.pstate != "" || c.viaCLI {
+		st := c.pstate
+		if st == "" {
+			st = "fresh"
+		}
+		if c.viaCLI {
+			st += ",cli"
+		}
+		ftok += "@" + st // <format>@<state of the output path>[,cli]
+	}
 	if len(c.prefix) > 0 {
 		ftok += "~" + strings.Join(c.prefix, "+") // <format>~<earlier export>+<earlier export>…
 	}
@@ -317,6 +332,18 @@ func parseCase(l string) tcase {
 		c.format = f
 		if pre != "" {
 			c.prefix = strings.Split(pre, "+")
+		}
+	}
+	if f, st, ok := strings.Cut(c.format, "@"); ok {
+		c.format = f
+		for _, x := range strings.Split(st, ",") {
+			switch x {
+			case "cli":
+				c.viaCLI = true
+			case "fresh", "":
+			default:
+				c.pstate = x
+			}
 		}
 	}
 	w := 19 // tokens per package; lines recorded before the normal form's components were added have 15
@@ -450,6 +477,49 @@ func export(res *scalibr.ScanResult, dir, format string) (string, error) {
 	return p, cdx.Write(converter.ToCDX(res, converter.CDXConfig{}), p, format)
 }
 
+// preparePath puts the output path of the judged export into its generated state (binary/spdx Write23 and binary/cdx Write must
+// truncate / create whatever is there):
+//
+//	fresh          nothing at the path
+//	shorter        a 7-byte file
+//	longer-bytes   arbitrary bytes, longer than the document about to be written (measured by a trial export next to it)
+//	longer-export  a previous, LARGER export in the same format through the real writer (the inventory plus 40 more packages)
+//	ro             a longer file that was read-only (0444) and made writable again just before the export
+func preparePath(p string, c tcase, dir string) {
+	trial := func() int {
+		tdir := filepath.Join(dir, "trial")
+		must(os.MkdirAll(tdir, 0o755))
+		tp, err := export(&scalibr.ScanResult{Inventory: inventory.Inventory{Packages: scalibrPackages(c)}}, tdir, c.format)
+		n := 0
+		if st, e := os.Stat(tp); err == nil && e == nil {
+			n = int(st.Size())
+		}
+		os.RemoveAll(tdir)
+		return n
+	}
+	switch c.pstate {
+	case "", "fresh":
+	case "shorter":
+		must(os.WriteFile(p, []byte("{\"a\":1"), 0o644))
+	case "longer-bytes":
+		must(os.WriteFile(p, bytes.Repeat([]byte("x9}\n<"), trial()/5+200), 0o644))
+	case "ro":
+		must(os.WriteFile(p, bytes.Repeat([]byte(" \n"), trial()/2+500), 0o444))
+		must(os.Chmod(p, 0o644))
+	case "longer-export":
+		big := tcase{stream: c.stream, format: c.format, pkgs: append([]pk{}, c.pkgs...)}
+		for i := 0; i < 40; i++ {
+			n := fmt.Sprintf("previous-export-filler-package-%02d", i)
+			big.pkgs = append(big.pkgs, pk{name: n, version: "1.0.0", locs: []string{"some/long/path/to/" + n}, hasPurl: true, typ: "npm", pname: n, pversion: "1.0.0"})
+		}
+		if _, err := export(&scalibr.ScanResult{Inventory: inventory.Inventory{Packages: scalibrPackages(big)}}, filepath.Dir(p), c.format); err != nil {
+			_ = os.WriteFile(p, bytes.Repeat([]byte("y"), trial()+300), 0o644) // the writer refuses this inventory: arbitrary longer bytes instead
+		}
+	default:
+		panic("unknown output path state " + c.pstate)
+	}
+}
+
 // run exports ONE ScanResult value first to the formats of c.prefix (as `scalibr -o a=… -o b=…` does: one result, one conversion per
 // flag, in order), then to c.format, and scans the last file back. mut=1: the scan result after the exports is not the deep copy taken
 // before them (same packages in the same order with the same fields) — exporting must not modify what it exports.
@@ -471,7 +541,25 @@ func run(tmp string, c tcase) string {
 				debugf("write (earlier export) %s: %v", pf, err)
 			}
 		}
-		p, err := export(res, dir, c.format)
+		// the output path in its generated state: the writers must produce the same file whatever was there before
+		p := filepath.Join(dir, fi.file)
+		preparePath(p, c, dir)
+		if c.viaCLI {
+			// the real command-line path: one Flags value, one -o item per export, WriteScanResults
+			var outs []string
+			for i, pf := range c.prefix {
+				outs = append(outs, pf+"="+filepath.Join(dir, fmt.Sprintf("pre%d", i), formatInfo[pf].file))
+			}
+			outs = append(outs, c.format+"="+p)
+			err = (&cli.Flags{Output: outs}).WriteScanResults(res)
+			if err != nil && len(c.prefix) > 0 {
+				// WriteScanResults stops at the first -o item that fails (e.g. the known YAML writer finding in an EARLIER item): judge this
+				// format on its own item
+				err = (&cli.Flags{Output: outs[len(outs)-1:]}).WriteScanResults(res)
+			}
+		} else {
+			_, err = export(res, dir, c.format)
+		}
 		mut := hx.B(!sameImage(before, imageOf(res.Inventory.Packages)))
 		if err != nil {
 			debugf("write %s: %v", c.format, err)
@@ -905,7 +993,10 @@ func main() {
 		order := append([]string{}, formats...)
 		r.Shuffle(len(order), func(i, j int) { order[i], order[j] = order[j], order[i] })
 		for k, f := range order {
-			emit(tcase{stream: stream, format: f, prefix: append([]string{}, order[:k]...), pkgs: inv})
+			c := tcase{stream: stream, format: f, prefix: append([]string{}, order[:k]...), pkgs: inv}
+			c.pstate = []string{"", "", "", "shorter", "longer-bytes", "longer-bytes", "longer-export", "longer-export", "ro", ""}[r.Intn(10)]
+			c.viaCLI = r.Intn(4) == 0
+			emit(c)
 		}
 	}
 	// a package ToSPDX23 skips (no purl / no version / no name) in FRONT of exportable ones, and behind them
